@@ -2197,6 +2197,11 @@ def validate_meta(
     # Bazel ensures the cache is valid.
     mtime = 0 if bazel else int(st.st_mtime)
     if not bazel and (mtime != meta.mtime or path != meta.path):
+        if path.endswith(".pyi") != meta.path.endswith(".pyi") and not fine_grained_cache:
+            # A stub replaced a source file (or the other way round). The text may be
+            # identical, but it doesn't mean the same thing.
+            manager.log(f"Metadata abandoned for {id}: {path} replaces {meta.path}")
+            return None
         if manager.quickstart_state and path in manager.quickstart_state:
             # If the mtime and the size of the file recorded in the quickstart dump matches
             # what we see on disk, we know (assume) that the hash matches the quickstart
